@@ -136,6 +136,44 @@ def consistent(m, mrar):
     return "ok" if r == exp else "infer=%r rules=%r" % (r, exp)
 
 
+def p_is50or60(m, spd_ref, trk_ref, alt_ref):
+    """is50or60: None unless both registers apply; otherwise one of the three labels, and a single label is the
+    interpretation whose velocity vector is closest to the reference (ties / missing data -> both)"""
+    import numpy as np
+    import pyModeS as pms
+    from pyModeS.decoder.bds import bds50, bds60
+    from pyModeS.extra import aero
+    r = pms.bds.is50or60(m, spd_ref, trk_ref, alt_ref)
+    both = bds50.is50(m) and bds60.is60(m)
+    if not both:
+        return "ok" if r is None else "expected None, got %r" % (r,)
+    if r not in ("BDS50", "BDS60", "BDS50,BDS60"):
+        return "bad label %r" % (r,)
+    if r == "BDS50,BDS60":
+        return "ok"
+    # independent distance computation
+    def vec(v, ang):
+        return np.array([v * np.sin(np.radians(ang)), v * np.cos(np.radians(ang))])
+    ref = vec(spd_ref * aero.kts, trk_ref)
+    h50, v50 = bds50.trk50(m), bds50.gs50(m)
+    h60, m60, i60 = bds60.hdg60(m), bds60.mach60(m), bds60.ias60(m)
+    if m60 is not None and i60 is not None and abs(i60 - aero.mach2cas(m60, alt_ref * aero.ft) / aero.kts) > 20:
+        return "ok" if r == "BDS50" else "IAS/Mach inconsistent with altitude: expected BDS50, got %r" % (r,)
+    if None in (h50, v50, h60) or (m60 is None and i60 is None):
+        return "undecidable input must give both labels, got %r" % (r,)
+    d50 = np.linalg.norm(vec(v50 * aero.kts, h50) - ref)
+    ds = []
+    if m60 is not None:
+        ds.append(np.linalg.norm(vec(aero.mach2tas(m60, alt_ref * aero.ft), h60) - ref))
+    if i60 is not None:
+        ds.append(np.linalg.norm(vec(aero.cas2tas(i60 * aero.kts, alt_ref * aero.ft), h60) - ref))
+    d60 = min(ds)
+    if abs(d50 - d60) < 1e-6:
+        return "ok"
+    want = "BDS50" if d50 < d60 else "BDS60"
+    return "ok" if r == want else "closest is %s (d50=%.3f d60=%.3f), got %r" % (want, d50, d60, r)
+
+
 def k_roll_sign(rec):
     i = rec.get("info") or {}
     return i.get("rule") == ("BDS50", 1, 2, 11) and i.get("bit") == 2
@@ -230,6 +268,19 @@ def cases(ctx):
         if abs(d - 20) < 1e-3:
             continue
         yield dict(op="is60 " + m, real=("pyModeS.commb.is60", [m]), expect=str(d <= 20), tag="is60-alt")
+    # --- is50or60 on payloads that satisfy both rule sets (sparse random payloads do so often) and on one-sided ones
+    n5060 = 0
+    for _ in range(ctx.n(6000, 200000)):
+        bits = gen50(rng) if rng.random() < 0.5 else gen60(rng)
+        if rng.random() < 0.7:
+            # blend: keep status-consistent fields of both layouts where possible
+            other = gen60(rng) if rng.random() < 0.5 else gen50(rng)
+            bits = [a if rng.random() < 0.5 else b_ for a, b_ in zip(bits, other)]
+        if not any(bits):
+            continue
+        m = frame(rng, bits, df=21)
+        yield dict(op=None, real=("h:props.C12.p_is50or60", [m, rng.uniform(100, 550), rng.uniform(0, 360), rng.uniform(0, 42000)]),
+                   expect="ok", tag="is50or60")
     # --- random payloads: infer consistent with the rules, mrar both
     for _ in range(ctx.n(4000, 200000)):
         bits = spec.background(rng, 56, "rand")
